@@ -697,7 +697,34 @@ func SpecCompact(v uint64) []byte {
 }
 
 // Variants of one generated case.
-var variants = []string{"valid", "valid", "truncate", "truncate-all", "mutate", "mutate", "mutate", "craft-length", "craft-length", "craft-length", "resize", "resize", "random", "insert-delete"}
+var variants = []string{"valid", "valid", "truncate", "truncate-all", "mutate", "mutate", "mutate", "craft-length", "craft-length", "craft-length", "resize", "resize", "random", "insert-delete", "widen-compact"}
+
+// WideCompact encodes v in a compact form that is wider than the canonical
+// one (mode 1 = two bytes, 2 = four bytes, 3.. = big-integer mode with
+// mode+1 payload bytes); ok=false when v does not fit that form or the form
+// is the canonical one.
+func WideCompact(v uint64, mode int) (b []byte, ok bool) {
+	canon := SpecCompact(v)
+	switch {
+	case mode == 1 && v < 1<<14:
+		b = []byte{byte(v<<2) | 1, byte(v >> 6)}
+	case mode == 2 && v < 1<<30:
+		x := uint32(v<<2) | 2
+		b = []byte{byte(x), byte(x >> 8), byte(x >> 16), byte(x >> 24)}
+	case mode >= 3 && mode <= 7:
+		n := mode + 1 // 4..8 payload bytes
+		if n < 8 && v>>(8*uint(n)) != 0 {
+			return nil, false
+		}
+		b = []byte{byte(n-4)<<2 | 3}
+		for i := 0; i < n; i++ {
+			b = append(b, byte(v>>(8*uint(i))))
+		}
+	default:
+		return nil, false
+	}
+	return b, !bytes.Equal(b, canon)
+}
 
 // RunCase is the rapid property for one decoder.
 func RunCase(t *rapid.T, d *Decoder) {
@@ -811,6 +838,33 @@ func RunCase(t *rapid.T, d *Decoder) {
 			in = append(append([]byte{}, valid...), fill...)
 			craftInfo = fmt.Sprintf("%d bytes appended", n)
 		}
+	case "widen-compact":
+		// a compact integer or length prefix re-written in a wider, non-canonical form of
+		// the same value (numbers are first moved to a drawn magnitude): it must be
+		// refused, or decode to a message that survives its own re-encoding
+		if len(sites) == 0 {
+			break
+		}
+		s := sites[rapid.IntRange(0, len(sites)-1).Draw(t, "site")]
+		v := s.Declared
+		if s.Kind == "compact" && rapid.Bool().Draw(t, "newValue") {
+			sh := uint(rapid.SampledFrom([]int{0, 6, 14, 30, 31, 32, 33, 40, 47, 48, 55, 56, 57, 63}).Draw(t, "shift"))
+			v = uint64(1)<<sh + uint64(rapid.IntRange(-1, 5).Draw(t, "delta"))
+		}
+		var wide []byte
+		for _, m := range rapid.Permutation([]int{1, 2, 3, 4, 5, 6, 7, 7, 7}).Draw(t, "modes") {
+			if b, ok := WideCompact(v, m); ok {
+				wide = b
+				break
+			}
+		}
+		if wide == nil {
+			break
+		}
+		in = replaceAt(valid, s.Off, s.Width, wide)
+		craftInfo = fmt.Sprintf("%s at %d: value %d written as %x", s.Kind, s.Off, v, wide)
+		labels = append(labels, d.Name+"/widen-"+s.Kind)
+		crafted = true
 	case "random":
 		n := rapid.SampledFrom([]int{0, 0, 1, 2, 3, 4, 5, 8, 16, 33, 64, 200}).Draw(t, "rlen")
 		in = rapid.SliceOfN(rapid.Byte(), n, n).Draw(t, "rnd")
